@@ -447,7 +447,8 @@ theorem energy_from_tof_rounding (mn sE sL sT t L : Fl R)
     (Approx.div hu hu1 (Approx.cast hu hu1 (Approx.mul hu hu1
       (Approx.div hu hu1 (Approx.div hu hu1 (E mn om) (Approx.lit hu hu1 2))
         (Approx.mul hu hu1 (E sE oE) (Approx.sq hu hu1 (Approx.div hu hu1 (E sT oT) (E sL oL)))))
-      (Approx.sq hu hu1 (Approx.cast hu hu1 (E L ol) (tyOk_cEnergy hu hu1 om oE oL oT)))) ot) (Approx.sqSame hu hu1 (E t ot)))
+      (Approx.sq hu hu1 (Approx.cast hu hu1 (E L ol) (tyOk_cEnergy hu hu1 om oE oL oT)))) ot)
+      (Approx.sqSame hu hu1 (Approx.cast hu hu1 (E t ot) ot)))
 
 theorem energy_from_wavelength_rounding (h mn sE sW w : Fl R)
     (oh : TyOk R u h.ty) (om : TyOk R u mn.ty) (oE : TyOk R u sE.ty) (oW : TyOk R u sW.ty) (ow : TyOk R u w.ty) :
